@@ -57,6 +57,7 @@ def _work(job):
         out["label"] = (qual + "@" + role) if role else qual
         out["explore_s"] = round(time.time() - t0, 2)
         out["unreached"] = list(getattr(eng, "unreached", []))
+        out["truncated"] = eng.truncated
         out["contracts_applied"] = sorted(eng.contracts_applied)
         out["source_sha"] = reg.repo.func_source_hash(qual)
         if getattr(reg, "regex_facts", None) is not None:
@@ -123,6 +124,8 @@ def report(ck, results, select=None, replayer=None, rename=None):
         if res["error"]:
             ck.ob("%s/verification" % q, "undecided", backend="pyvc", detail={"reason": res["error"]})
             continue
+        if res.get("truncated"):
+            ck.ob("%s/exploration-complete" % q, "undecided", backend="pyvc-paths", detail={"reason": "path exploration stopped (%s): obligations below are only those of the explored paths" % res["truncated"]})
         cov_name = "%s/coverage:every-statement-reached" % q
         if select is None or select(cov_name):
             if res.get("unreached"):
